@@ -42,7 +42,7 @@ theorem subInv_upd {cfg : Cfg} {s : State} (h : SubInv cfg s) (u : Nat) (f : Mod
 
 theorem subInv_count {cfg : Cfg} {s : State} (h : SubInv cfg s) (t : Int) : SubInv cfg (countMsg cfg s t) := by
   unfold countMsg; split
-  · exact h
+  · exact subInv_of_same h rfl (fun _ => rfl)
   · exact subInv_of_same h rfl (fun _ => rfl)
 
 /-- the nested-forward contract for the invariant -/
@@ -670,18 +670,18 @@ theorem sendActive_inv {cfg : Cfg} {s : State} (h : SubInv cfg s) : SubInv cfg (
 theorem ticks_inv {cfg : Cfg} {s : State} (h : SubInv cfg s) : SubInv cfg (ticks cfg s) := by
   unfold ticks
   dsimp only
-  have h1 : SubInv cfg (if (cfg.timing && decide (s.now - s.tTiming > 900)) = true then
+  have h1 : SubInv cfg (if (cfg.timing && decide (s.now - s.tTiming > cfg.pTiming)) = true then
       { sendTiming cfg s with tTiming := s.now } else s) := by
     split
     · exact subInv_of_same (sendTiming_inv h) rfl (fun _ => rfl)
     · exact h
-  generalize (if (cfg.timing && decide (s.now - s.tTiming > 900)) = true then
+  generalize (if (cfg.timing && decide (s.now - s.tTiming > cfg.pTiming)) = true then
       { sendTiming cfg s with tTiming := s.now } else s) = s1 at h1 ⊢
-  have h2 : SubInv cfg (if s1.now - s1.tTraffic > 1000 then sendTraffic cfg s1 else s1) := by
+  have h2 : SubInv cfg (if s1.now - s1.tTraffic > cfg.pTraffic then sendTraffic cfg s1 else s1) := by
     split
     · exact sendTraffic_inv h1
     · exact h1
-  generalize (if s1.now - s1.tTraffic > 1000 then sendTraffic cfg s1 else s1) = s2 at h2 ⊢
+  generalize (if s1.now - s1.tTraffic > cfg.pTraffic then sendTraffic cfg s1 else s1) = s2 at h2 ⊢
   split
   · exact sendActive_inv h2
   · exact h2
